@@ -291,7 +291,7 @@ pub fn run(ctx: &Ctx) -> EvidenceMeta {
                Non-trivial = a cut at >= 20 bytes (inside an attribute or at an attribute boundary) or a header-relation case with a full \
                header; distinct by (message digest, cut)."
             .into(),
-        assumptions: vec!["messages the library refuses as a whole are not judged here".into()],
+        assumptions: vec!["whether the complete message is accepted is left to C02/C03; its strict prefixes are judged whenever the independent decoder finds the message well-formed".into()],
         exhaustive: false,
         extra: json!({}),
     }
